@@ -34,6 +34,8 @@ Invalid == {
   Q(And(Cmp("=", H, Val(":a")), Cmp("=", Path("v"), Val(":b"))), AB),                          \* non-key attribute
   Q(And(Cmp("=", H, Val(":a")), Fn("contains", <<R, Val(":b")>>)), AB),
   Q(And(Cmp("=", H, Val(":a")), Fn("attribute_exists", <<R>>)), HV),
+  Q(And(Cmp("=", H, Val(":a")), Fn("begins_with", <<R>>)), HV), Q(And(Cmp("=", H, Val(":a")), Fn("begins_with", <<>>)), HV),   \* wrong operand counts
+  Q(And(Fn("begins_with", <<R>>), Cmp("=", H, Val(":a"))), HV), Q(And(Cmp("=", H, Val(":a")), Fn("begins_with", <<R, Val(":b"), Val(":c")>>)), ABC),
   Q(And(And(Cmp("=", H, Val(":a")), Cmp("=", R, Val(":b"))), Cmp("=", R, Val(":c"))), ABC),   \* two sort-key conditions
   Q(And(Cmp("=", H, Val(":a")), Cmp("=", H, Val(":b"))), AB),                                  \* partition key twice
   Q([k |-> "in", x |-> H, xs |-> <<Val(":a")>>], HV),
@@ -46,6 +48,14 @@ Invalid == {
   QG(Cmp("=", H, Val(":a")), HV),                                                              \* table key on an index
   QG(And(Cmp("=", Path("g"), Val(":a")), Cmp("=", R, Val(":b"))), [AB EXCEPT ![":a"] = S1(112)])
 }
+\* two faults in one request - a table that does not exist AND a placeholder no expression uses: whichever is reported, both clients
+\* report the same
+Faulty == { UpdC("c1", "tblx", K(97, 49), SetU("v", Val(":n")), NoCond, <<>>, [n \in {":n", ":unused"} |-> S1(49)], FALSE),
+            UpdC("c1", "tblx", K(97, 49), SetU("v", Val(":n")), NoCond, One("#unused", "v"), One(":n", S1(49)), FALSE),
+            PutC("c1", "tblx", K(97, 49), NoCond, <<>>, One(":unused", S1(49)), FALSE),
+            DelC("c1", "tblx", [h |-> S1(97), r |-> S1(49)], NoCond, One("#unused", "v"), <<>>, FALSE, FALSE),
+            QueryOp("c1", "tblx", NoIndex, Cmp("=", H, Val(":a")), NoFilter, <<>>, [n \in {":a", ":unused"} |-> S1(97)], TRUE),
+            ScanOp("c1", "tblx", NoIndex, NoFilter, One("#unused", "v"), <<>>) }
 KeyN(i) == [h |-> Str(<<107, 48 + (i \div 10), 48 + (i % 10)>>), r |-> S1(49)]
 Req(kind, x) == [t |-> T1, put |-> [some |-> kind \in {"put", "both"}, i |-> IF kind \in {"put", "both"} THEN x ELSE <<>>],
                  del |-> [some |-> kind \in {"del", "both"}, k |-> IF kind \in {"del", "both"} THEN x ELSE <<>>]]
@@ -60,6 +70,6 @@ Req2(t, x) == [t |-> t, put |-> [some |-> TRUE, i |-> x], del |-> [some |-> FALS
 Spread == { BW([i \in 1..(2 * n) |-> Req2(IF i <= n THEN T1 ELSE T2, KeyN(i))]) : n \in {12, 13} }
 SetupDef == << AddTable("c1", T1, "h", "r"), AddTable("c1", T2, "h", "r"), AddIndex("c1", T1, "gsx", "g", "s"), AddIndex("c1", T1, "gix", "g", ""),
                Put(T1, K(97, 49)), Put(T1, K(97, 50)), Put(T1, K(98, 49)) >>
-MenuDef == SetToSeq(Valid) \o SetToSeq(Invalid) \o SetToSeq(Batches) \o SetToSeq(Spread)
+MenuDef == SetToSeq(Valid) \o SetToSeq(Invalid) \o SetToSeq(Faulty) \o SetToSeq(Batches) \o SetToSeq(Spread)
 BoundDef(d) == Cardinality(d["c1"].tables[T1].items) <= 3 /\ Cardinality(d["c1"].tables[T2].items) = 0
 =============================================================================
